@@ -378,6 +378,10 @@ func (cx *laCtx) check(arg *abi.AsArgument, x uint32, order int64) {
 		cx.report("wadecode", f, c, x, arg, &exp, back.String(), order)
 		return
 	}
+	if f, ok := canonicalImm(&back, &got); !ok {
+		cx.report("wadecode", f, "imm:non-canonical-signedness", x, arg, &exp, back.String()+" (x/arch: "+got.String()+")", order)
+		return
+	}
 	if !cx.distinct {
 		cx.distinct = true
 		cx.lr.r.Distinct("loong64|" + got.Op)
